@@ -1,24 +1,66 @@
-"""Collect the drift-guard baseline (AST hashes of the anchored definitions on the unchanged tree) from
-the evidence files written by the checks:  python3 -m harness.gen_baseline
-Run only after every check has been run against /repo itself (evidence/ describes /repo)."""
+"""Drift-guard baseline (AST hashes of the anchored definitions on the unchanged tree):
+
+    python3 -m harness.gen_baseline
+
+Which (file, definitions) each property anchors is read from the evidence files (the checks record it through
+Ctx.hash_sources) and from the previous baseline; the hashes themselves are RECOMPUTED here from /repo's committed
+source, under the interpreter the checks run with (/venv/bin/python: `ast.dump` differs between Python versions), so
+the baseline never lags behind a new `fix:` commit the way a copy of old evidence would."""
 import json
+import subprocess
+import sys
 from pathlib import Path
 
 VERIF = Path(__file__).resolve().parent.parent
+PY = "/venv/bin/python"
+
+
+def anchors():
+    want = {}
+    prev = VERIF / "harness" / "baseline_hashes.json"
+    srcs = []
+    if prev.exists():
+        srcs.append(json.loads(prev.read_text()))
+    for f in sorted((VERIF / "evidence").glob("C*.json")):
+        ev = json.loads(f.read_text())
+        srcs.append({ev["property_id"]: ev.get("coverage", {}).get("source_ast_hashes") or {}})
+    for d in srcs:
+        for pid, files in d.items():
+            if pid.startswith("__") or not isinstance(files, dict):
+                continue
+            for rel, names in files.items():
+                want.setdefault(pid, {}).setdefault(rel, {}).update(names)      # later sources (evidence) win
+    return want
 
 
 def main():
+    if sys.executable != PY and Path(PY).exists():
+        return subprocess.call([PY, "-W", "ignore", "-m", "harness.gen_baseline"], cwd=str(VERIF),
+                               env={"PYTHONPATH": str(VERIF), "PATH": "/usr/bin:/bin"})
+    from harness.common import ast_hash
+    st = subprocess.run(["git", "-C", "/repo", "status", "--porcelain", "--untracked-files=no"], capture_output=True, text=True)
+    if st.stdout.strip():
+        print("refusing: /repo has uncommitted edits to tracked files (the baseline describes a commit)")
+        return 1
     out = {}
-    for f in sorted((VERIF / "evidence").glob("C*.json")):
-        ev = json.loads(f.read_text())
-        h = ev.get("coverage", {}).get("source_ast_hashes") or {}
-        if h:
-            out[ev["property_id"]] = h
-    import subprocess
+    for pid, files in sorted(anchors().items()):
+        for rel, names in sorted(files.items()):
+            p = Path("/repo/src/quantem") / rel
+            if not p.exists():
+                continue
+            h = ast_hash(p, sorted(names))
+            # keys a check computes by itself (not a plain top-level / Class.method name, e.g. the implementation
+            # among @overload definitions) cannot be recomputed here: the value recorded by the check's last run
+            # is kept — re-run that check against /repo before regenerating after a commit that touches them
+            for k, v in h.items():
+                if v == "absent" and names.get(k) not in (None, "absent"):
+                    h[k] = names[k]
+            out.setdefault(pid, {})[rel] = h
     out["__repo_head__"] = subprocess.run(["git", "-C", "/repo", "rev-parse", "HEAD"], capture_output=True, text=True).stdout.strip()
     (VERIF / "harness" / "baseline_hashes.json").write_text(json.dumps(out, indent=1, sort_keys=True) + "\n")
     print("baseline for", sorted(k for k in out if not k.startswith("__")), "at", out["__repo_head__"][:10])
+    return 0
 
 
 if __name__ == "__main__":
-    main()
+    sys.exit(main())
